@@ -77,7 +77,7 @@ let () =
   let cmp = ref false in
   let lines = ref [] in
   let nhist = ref 0 and nbad = ref 0 and nsteps = ref 0 and ncmp = ref 0 and noutside = ref 0
-  and nresync = ref 0 and nchecked = ref 0 and nqueries = ref 0 and nreimports = ref 0 in
+  and nresync = ref 0 and nchecked = ref 0 and nqueries = ref 0 and nreimports = ref 0 and nprobes = ref 0 in
   let glines = ref [] in
   let finish () =
     if !hid <> "" then begin
@@ -164,6 +164,31 @@ let () =
                   transition as part of the next compared step; keep impl_prev as is *)
                ()
              end)
+        | 'P' ->
+          (* a probe the harness ran on a discarded branch of the state just compared:
+             P <prop> <class> <expect-fail> # <recorded withdrawals (op 50)> # <operation> *)
+          (match String.split_on_char '#' rest with
+           | [hd; orc; opl] ->
+             (match List.map int_of_string (split_ws hd) with
+              | [pprop; pclass; pexp] when pprop = prop ->
+                (match parse_op (List.map z_of_string (split_ws orc)), parse_op (List.map z_of_string (split_ws opl)) with
+                 | Some o1, Some o2 ->
+                   incr nprobes;
+                   let (s1, _) = step !st o1 in
+                   let (_, c) = step s1 o2 in
+                   let mclass = int_of_z c in
+                   let kind = (match split_ws opl with k :: _ -> k | [] -> "?") in
+                   let code = string_of_z (step_err s1 o2) in
+                   if (mclass = 0) <> (pclass = 0) then
+                     mismatch "probe" (Printf.sprintf "op={%s} model-class=%d impl-class=%d model-code=%s" opl mclass pclass code);
+                   let bad_impl = if pexp = 1 then pclass = 0 else pclass <> 0 in
+                   let bad_model = if pexp = 1 then mclass = 0 else mclass <> 0 in
+                   let sg = Printf.sprintf "C%02d.p%s%s.e%s" prop kind (if pexp = 1 then "x" else "") code in
+                   if bad_impl then Printf.printf "PROPFAIL impl %s step=%d sig=%s\n" !hid !stepno sg;
+                   if bad_model then Printf.printf "PROPFAIL model %s step=%d sig=%s\n" !hid !stepno sg
+                 | _, _ -> mismatch "parse" ("probe: " ^ rest))
+              | _ -> ())
+           | _ -> ())
         | 'Q' ->
           (* a query answered by the real application on the state just compared *)
           (match String.index_opt rest ';' with
@@ -199,5 +224,5 @@ let () =
   with End_of_file -> ());
   finish ();
   close_in ic;
-  Printf.printf "SUMMARY histories=%d mismatching=%d steps=%d compared=%d outside=%d resync=%d checked=%d queries=%d reimports=%d\n"
-    !nhist !nbad !nsteps !ncmp !noutside !nresync !nchecked !nqueries !nreimports
+  Printf.printf "SUMMARY histories=%d mismatching=%d steps=%d compared=%d outside=%d resync=%d checked=%d queries=%d reimports=%d probes=%d\n"
+    !nhist !nbad !nsteps !ncmp !noutside !nresync !nchecked !nqueries !nreimports !nprobes
